@@ -9,7 +9,7 @@ open('/verif/build/all.rs','w').write(b.text())
 for k,why in b.skipped: print('SKIPPED HINT',k,why)
 args=sys.argv[1:]
 t=time.time()
-p=subprocess.run(['verus','all.rs','--cfg','feature="yoloproofs"','--error-format=json','--output-json','--time','--multiple-errors','5','--rlimit','150']+args,cwd='/verif/build',capture_output=True,text=True)
+p=subprocess.run(['verus','all.rs','--cfg','feature="yoloproofs"','--error-format=json','--output-json','--time','--multiple-errors','5','--rlimit',__import__('os').environ.get('RL','150')]+args,cwd='/verif/build',capture_output=True,text=True)
 open('/verif/build/o.json','w').write(p.stdout); open('/verif/build/e.jsonl','w').write(p.stderr)
 n=0
 for l in p.stderr.split('\n'):
